@@ -26,6 +26,13 @@ type mutant struct {
 	Constr string // substring expected in the construct
 }
 
+// edit: one more file of a variant that spans files; registered per mutant name in moreEdits.
+type edit struct {
+	File, Old, New string
+}
+
+var moreEdits = map[string][]edit{}
+
 var mutants = map[string][]mutant{}
 
 func addMutants(prop string, ms ...mutant) { mutants[prop] = append(mutants[prop], ms...) }
@@ -81,28 +88,37 @@ func runSelftests(prop, repo, verif string) map[string]any {
 			sem <- struct{}{}
 			defer func() { <-sem }()
 			res := result{m: m}
-			src, err := os.ReadFile(filepath.Join(repo, m.File))
-			if err != nil {
-				res.outcome, res.note = "skipped", "file missing"
+			args := []string{"check", prop, "--tier", "quick", "--no-write", "--repo", repo, "--verif", verif}
+			skipped := false
+			for _, ed := range append([]edit{{m.File, m.Old, m.New}}, moreEdits[m.Name]...) {
+				src, err := os.ReadFile(filepath.Join(repo, ed.File))
+				if err != nil {
+					res.outcome, res.note = "skipped", "file missing"
+					skipped = true
+					break
+				}
+				if bytes.Count(src, []byte(ed.Old)) != 1 {
+					res.outcome, res.note = "skipped", "pattern does not occur exactly once in the current source (source changed)"
+					skipped = true
+					break
+				}
+				mut := bytes.Replace(src, []byte(ed.Old), []byte(ed.New), 1)
+				tmp, err := os.CreateTemp("", "kvlint-mut-*.go")
+				if err != nil {
+					res.outcome, res.note = "skipped", err.Error()
+					skipped = true
+					break
+				}
+				tmp.Write(mut)
+				tmp.Close()
+				defer os.Remove(tmp.Name())
+				args = append(args, "--overlay", ed.File+"="+tmp.Name())
+			}
+			if skipped {
 				results[i] = res
 				return
 			}
-			if bytes.Count(src, []byte(m.Old)) != 1 {
-				res.outcome, res.note = "skipped", "pattern does not occur exactly once in the current source (source changed)"
-				results[i] = res
-				return
-			}
-			mut := bytes.Replace(src, []byte(m.Old), []byte(m.New), 1)
-			tmp, err := os.CreateTemp("", "kvlint-mut-*.go")
-			if err != nil {
-				res.outcome, res.note = "skipped", err.Error()
-				results[i] = res
-				return
-			}
-			tmp.Write(mut)
-			tmp.Close()
-			defer os.Remove(tmp.Name())
-			cmd := exec.Command(exe, "check", prop, "--tier", "quick", "--no-write", "--repo", repo, "--verif", verif, "--overlay", m.File+"="+tmp.Name())
+			cmd := exec.Command(exe, args...)
 			out, _ := cmd.CombinedOutput()
 			hit := false
 			var seen []string
